@@ -1,6 +1,7 @@
 package main
 
 import (
+	"bytes"
 	"fmt"
 	"os"
 	"os/exec"
@@ -583,6 +584,7 @@ func c04Stress(r *report.Run, order int64) int {
 		name, out string
 		err       error
 		timedOut  bool
+		undecided bool
 	}
 	results := make([]res, len(names))
 	par.For(len(names), func(i int) {
@@ -591,20 +593,46 @@ func c04Stress(r *report.Run, order int64) int {
 		done := make(chan struct{})
 		var out []byte
 		var err error
-		go func() { out, err = cmd.CombinedOutput(); close(done) }()
-		select {
-		case <-done:
-		case <-time.After(120 * time.Second):
-			cmd.Process.Kill()
-			<-done
-			results[i].timedOut = true
+		var buf bytes.Buffer
+		cmd.Stdout, cmd.Stderr = &buf, &buf
+		if serr := cmd.Start(); serr != nil {
+			results[i].name, results[i].out, results[i].err = names[i], serr.Error(), serr
+			return
+		}
+		go func() { err = cmd.Wait(); out = buf.Bytes(); close(done) }()
+		// The limit is on the CPU time the child has consumed (read from /proc), not on wall-clock time: a loaded
+		// machine slows the child down without making it look hung. A wall-clock cap only ends the wait (reported as
+		// "not decided", never as a violation).
+		start := time.Now()
+	wait:
+		for {
+			select {
+			case <-done:
+				break wait
+			case <-time.After(500 * time.Millisecond):
+				if cpu := procCPUSeconds(cmd.Process.Pid); cpu > 150 {
+					cmd.Process.Kill()
+					<-done
+					results[i].timedOut = true
+					break wait
+				}
+				if time.Since(start) > 30*time.Minute {
+					cmd.Process.Kill()
+					<-done
+					results[i].undecided = true
+					break wait
+				}
+			}
 		}
 		results[i].name, results[i].out, results[i].err = names[i], string(out), err
 	})
 	for i, rs := range results {
 		switch {
+		case rs.undecided:
+			r.Note("stress shape %s: no result within 30 minutes of wall-clock time although the child used less than 150 CPU-seconds (overloaded machine): not decided", rs.name)
+			r.Set("exhaustive", false)
 		case rs.timedOut || strings.Contains(rs.out, "out of memory") || strings.Contains(rs.out, "cannot allocate memory"):
-			r.Report(report.Violation{Sub: "stress", Kind: "resource-exhaustion", Witness: rs.name, Order: order + int64(i), Detail: map[string]interface{}{"shape": rs.name, "what": "no result within 120 s, or the process ran out of its 12 GiB address space: " + lastLines(rs.out, 2)}})
+			r.Report(report.Violation{Sub: "stress", Kind: "resource-exhaustion", Witness: rs.name, Order: order + int64(i), Detail: map[string]interface{}{"shape": rs.name, "what": "more than 150 CPU-seconds without a result, or the process ran out of its 12 GiB address space: " + lastLines(rs.out, 2)}})
 		case strings.Contains(rs.out, "STRESS-OK"):
 		case strings.Contains(rs.out, "STRESS-VIOLATION"):
 			r.Report(report.Violation{Sub: "stress", Kind: "panic", Witness: rs.name, Order: order + int64(i), Detail: map[string]interface{}{"shape": rs.name, "what": lastLines(rs.out, 3)}})
@@ -613,6 +641,25 @@ func c04Stress(r *report.Run, order int64) int {
 		}
 	}
 	return len(names)
+}
+
+// procCPUSeconds returns user+system CPU time of a process (all threads) from /proc/<pid>/stat.
+func procCPUSeconds(pid int) float64 {
+	b, err := os.ReadFile(fmt.Sprintf("/proc/%d/stat", pid))
+	if err != nil {
+		return 0
+	}
+	s := string(b)
+	if k := strings.LastIndex(s, ")"); k >= 0 {
+		f := strings.Fields(s[k+1:])
+		if len(f) > 13 {
+			var ut, st float64
+			fmt.Sscanf(f[11], "%f", &ut)
+			fmt.Sscanf(f[12], "%f", &st)
+			return (ut + st) / 100 // clock ticks: 100 per second on Linux
+		}
+	}
+	return 0
 }
 
 func lastLines(s string, n int) string {
